@@ -686,6 +686,11 @@ impl Server {
         
         // First phase: read and parse with the lock
         let read_result = self.connections.with_connection(id, |conn| -> Result<()> {
+            // Commands that were held back behind a blocking command come first
+            if !matches!(conn.state, ConnectionState::Blocked(_)) {
+                frames_to_process.extend(conn.deferred_frames.drain(..));
+            }
+            
             // Try to flush any pending writes first to avoid buffer buildup
             if conn.has_pending_writes() {
                 match conn.flush() {
@@ -790,7 +795,8 @@ impl Server {
         // Second phase: process frames without the lock
         let mut responses = Vec::new();
         let mut needs_immediate_flush = false; // Track if any command needs immediate response
-        for frame in frames_to_process {
+        let mut frames_iter = frames_to_process.into_iter();
+        while let Some(frame) = frames_iter.next() {
             // Process each frame and increment command counter
             self.stats.total_commands_processed.fetch_add(1, Ordering::Relaxed);
             
@@ -884,6 +890,19 @@ impl Server {
                 }
             };
             responses.push(response);
+            
+            // A command that left the connection blocked has not been answered yet: the
+            // commands behind it wait until it has been, so that replies keep request order
+            let now_blocked = self.connections.with_connection(id, |conn| {
+                matches!(conn.state, ConnectionState::Blocked(_))
+            }).unwrap_or(false);
+            if now_blocked {
+                let rest: Vec<RespFrame> = frames_iter.by_ref().collect();
+                if !rest.is_empty() {
+                    self.connections.with_connection(id, |conn| conn.deferred_frames.extend(rest));
+                }
+                break;
+            }
         }
         
         // Third phase: send responses with special handling for commands needing immediate delivery
